@@ -190,7 +190,7 @@ func checkC05(r *harness.Run) harness.Coverage {
 	})
 	type pj struct {
 		u, v, w string
-		k     int
+		k       int
 	}
 	var jobs []pj
 	for _, p := range univ.PumpPairs {
@@ -226,10 +226,10 @@ func checkC05(r *harness.Run) harness.Coverage {
 	// expression references in arbitrary operand positions (gap G1: no verdict on the value, but no panic either)
 	anyRef := &univ.Fragment{
 		Idents: univ.Tks("a"), Leaves: univ.Tks("@", "`1`"), Nums: univ.Tks("0"),
-		Funcs:  univ.Tks("contains", "not_null", "to_array", "type", "to_string", "sort_by", "map", "length", "merge", "max_by", "join", "keys"),
-		Cmps:   univ.Tks("==", "<"), Or: true, And: true, Not: true, Dot: true, Pipe: true, Flatten: true, WildIdx: true, Filter: true, Star: true,
+		Funcs: univ.Tks("contains", "not_null", "to_array", "type", "to_string", "sort_by", "map", "length", "merge", "max_by", "join", "keys"),
+		Cmps:  univ.Tks("==", "<"), Or: true, And: true, Not: true, Dot: true, Pipe: true, Flatten: true, WildIdx: true, Filter: true, Star: true,
 		FilterConds: [][]model.Tok{univ.Lx("&a"), univ.Lx("&a == &a"), univ.Lx("@")},
-		MaxList: 2, MaxHash: 1, MaxArgs: 2, MinArgs: 1, AmpAnywhere: true, Weight: univ.StructuralWeight,
+		MaxList:     2, MaxHash: 1, MaxArgs: 2, MinArgs: 1, AmpAnywhere: true, Weight: univ.StructuralWeight,
 	}
 	// the same with a tiny alphabet, deeper: parenthesised references compared, nested in lists and calls
 	anyRefDeep := &univ.Fragment{
